@@ -281,16 +281,24 @@ static void utf8_run(void) {
     /* every string of up to N symbols over 8 UTF-8-significant bytes: leads of each width, continuations, the
      * second bytes that decide overlong / surrogate / out-of-range, ASCII. Reaches lengths the byte sweep cannot,
      * so DFA-state x position interactions (strides, fast paths, look-ahead) are exercised. */
-    static const uint8_t al[8] = {0x61, 0xc3, 0xa9, 0xe2, 0x82, 0xf0, 0x90, 0xed};
+    /* three alphabets: the general one; the surrogate region (ED with second bytes on both sides of A0 and of B0: lone
+     * and paired surrogates, CESU-8 pairs); the top of the range (F4 8F/90, F0 8F/90, E0 9F/A0 boundaries) */
+    static const uint8_t als[3][8] = {{0x61, 0xc3, 0xa9, 0xe2, 0x82, 0xf0, 0x90, 0xed},
+                                      {0xed, 0xa0, 0xaf, 0xb0, 0xbf, 0x80, 0x9f, 0x41},
+                                      {0xf4, 0x8f, 0x90, 0xbf, 0x80, 0xf0, 0xe0, 0xa0}};
     size_t N = O.budget ? (size_t)O.budget : (O.thorough ? 9 : 7);
     g_by_construction = false;
     uint8_t b[16];
-    for (size_t len = 4; len <= N; len++) {
-      uint64_t total = (uint64_t)1 << (3 * len);
-      for (uint64_t v = 0; v < total; v++) {
-        if ((int)((v >> (3 * (len - 2))) % (uint64_t)O.nshards) != O.shard) { v |= ((uint64_t)1 << (3 * (len - 2))) - 1; continue; }
-        for (size_t i = 0; i < len; i++) b[i] = al[(v >> (3 * (len - 1 - i))) & 7];
-        utf8_case(b, len, (v & 15) == 0 ? 15 : 1);
+    for (int ai = 0; ai < 3; ai++) {
+      const uint8_t* al = als[ai];
+      size_t Na = ai == 0 ? N : (N > 8 ? 8 : N);
+      for (size_t len = 4; len <= Na; len++) {
+        uint64_t total = (uint64_t)1 << (3 * len);
+        for (uint64_t v = 0; v < total; v++) {
+          if ((int)((v >> (3 * (len - 2))) % (uint64_t)O.nshards) != O.shard) { v |= ((uint64_t)1 << (3 * (len - 2))) - 1; continue; }
+          for (size_t i = 0; i < len; i++) b[i] = al[(v >> (3 * (len - 1 - i))) & 7];
+          utf8_case(b, len, (v & 15) == 0 ? 15 : 1);
+        }
       }
     }
     vh_set_exhaustive(false);
@@ -317,6 +325,16 @@ static void utf8_run(void) {
         memcpy(mut + at, faults[k], flen[k]);
         memcpy(mut + at + flen[k], txt + at, n - at);
         utf8_case(mut, n + flen[k], (u & 3) == 0 ? 15 : 9);
+        /* two faults side by side: invalid pieces that only look like something when adjacent (a high and a low surrogate
+         * form a CESU-8 pair, two halves of different scalars, an overlong lead before a stray continuation) */
+        if ((u & 7) == 0 || i == 0) {
+          size_t k2 = vh_below(&r, sizeof flen);
+          memcpy(mut, txt, at);
+          memcpy(mut + at, faults[k], flen[k]);
+          memcpy(mut + at + flen[k], faults[k2], flen[k2]);
+          memcpy(mut + at + flen[k] + flen[k2], txt + at, n - at);
+          utf8_case(mut, n + flen[k] + flen[k2], 1);
+        }
         /* truncate the scalar that starts here */
         if (i < ns && starts[i + 1] - at > 1) { size_t cut = 1 + vh_below(&r, starts[i + 1] - at - 1); memcpy(mut, txt, at + cut); memcpy(mut + at + cut, txt + starts[i + 1], n - starts[i + 1]); utf8_case(mut, n - (starts[i + 1] - at - cut), 1); }
       }
